@@ -30,7 +30,6 @@ var formats = []string{logging.PlaintextFormatString, logging.JSONFormatString, 
 const workers = 8
 
 func Run(r *ev.Run) {
-	defer startProf()()
 	r.Rule = "one evaluation = one run of Acra's verifier (ReadLogEntries over 1-3 files + VerifyIntegrityCheck) over a produced log or one edit of it. " +
 		"Logs: (a) one small log per (format, content class, position msg|key|value) of the hostile alphabet, intact-only; (b) seeded logs of 3-40 entries, " +
 		"0-3 chain restarts (ResetChain / process restart appending to the same file), two wirings, entries drawn from the content classes whose intact log verifies; " +
@@ -250,6 +249,7 @@ func phaseFull(r *ev.Run, dir string, broken map[string]bool) {
 			spec.steps = append(spec.steps, step{kind: "entry", entry: buildEntry(rng, content{"plain", "msg"}, t)})
 			e := buildEntryN(rng, c, t.Add(time.Second), 0)
 			e.fields = nil
+			e.msg = "handler integrity<x 42" // one bit away from the text that announces the tag
 			spec.steps = append(spec.steps, step{kind: "entry", entry: e})
 			data, meta, err := produce(spec, dir)
 			if err != nil {
@@ -259,7 +259,7 @@ func phaseFull(r *ev.Run, dir string, broken map[string]bool) {
 			jobs = append(jobs, fullJob{L: newProdLog(spec, data, meta)})
 		}
 	}
-	runJobs(r, jobs, r.Pick(400, 250), true)
+	runJobs(r, jobs, r.Pick(400, 120), true)
 }
 
 func runJobs(r *ev.Run, jobs []fullJob, byteBudget int, allEdits bool) {
@@ -420,7 +420,7 @@ func checkLog(r *ev.Run, v *verifier, j fullJob, byteBudget int, allEdits bool) 
 	}
 
 	// O2: edits
-	L.genEdits(rng, byteBudget, func(e edit) {
+	L.genEdits(rng, byteBudget, r.Thorough() && j.tag == "", func(e edit) {
 		if j.tag != "" && !(e.line > longLineIndex(L) && (e.kind == "delete" || e.kind == "byte-change" || e.kind == "swap-adjacent" || e.kind == "duplicate-adjacent" || strings.HasPrefix(e.kind, "replace-tag"))) {
 			return
 		}
